@@ -76,25 +76,51 @@ def r11_1(ctx):
 
 
 def _has_unprintable_set(prog):
-    cl = prog.fn("has_unprintable_ascii::{closure#0}")
+    """the set of byte values b for which has_unprintable_ascii(&[b]) is true, by case folding over the current MIR: the closure(s) handed to
+    Iterator::any are evaluated per byte, `is_ascii` on a one-byte slice is b < 128, and the function's own boolean structure is followed
+    with those answers (so `!matches!(b, RANGE)`, `b < 0x20 || b > 0x7e`, `!bytes.is_ascii() || bytes.iter().any(..)` .. are all decided)"""
+    from ..casefold import cases
+    f = prog.fn("has_unprintable_ascii")
+    closures = prog.closures_of(f)
+    if not closures:
+        raise AnchorError("has_unprintable_ascii: no per-byte closure")
+
+    def closure_value(cb, b):
+        rs = [r for r in cases(cb, lambda pl: b if (pl["l"] == 2 and pl["p"] == ["*"]) else None) if r["end"] == "return"]
+        vals = {r["known"].get(0) for r in rs}
+        if len(vals) != 1 or None in vals:
+            raise AnchorError("has_unprintable_ascii closure: byte 0x%02x undecided (%s)" % (b, vals))
+        return int(bool(vals.pop()))
+    by_def = {cb.path: cb for cb in closures}
     out = set()
     for b in range(256):
-        rs = et.follow_all(cl, b, lambda pl: pl["l"] == 2 and pl["p"] == ["*"])
-        if len(rs) != 1 or rs[0]["end"] != "return":
-            raise AnchorError("has_unprintable_ascii closure: byte 0x%02x undecided" % b)
-        # result = _0 ; find its value: last assignment to _0 on the path is Not(_3) with _3 const
-        path = rs[0]["path"]
-        v3 = None
-        for bb in path:
-            for st in cl.blocks[bb]["stmts"]:
-                if st["k"] == "assign" and not st["lhs"]["p"] and st["rv"]["k"] == "use" and "const" in st["rv"]["op"] and st["rv"]["op"]["const"]["ty"] == "bool":
-                    v3 = (st["lhs"]["l"], bool(int(st["rv"]["op"]["const"]["val"]["bits"])))
-        last = cl.blocks[path[-1]]["stmts"][-1]
-        if v3 is None or last["rv"]["k"] != "un" or last["rv"]["op"] != "Not":
-            raise AnchorError("has_unprintable_ascii closure: unrecognised shape")
-        if not v3[1]:
+        def oracle(t, val, b=b):
+            m = mname(t) or ""
+            if m.endswith("is_ascii"):
+                return int(b < 128)
+            if m in ("Iterator::any", "Iterator::all"):
+                # the closure operand
+                cands = []
+                for a in t["args"][1:]:
+                    pl = a.get("move") or a.get("copy")
+                    d = f.single_def(pl["l"]) if pl and not pl["p"] else None
+                    if d and d[2] == "assign" and d[3]["k"] == "agg" and d[3].get("agg") == "closure" and d[3].get("def") in by_def:
+                        cands.append(by_def[d[3]["def"]])
+                if len(cands) != 1:
+                    if len(closures) == 1:
+                        cands = closures
+                    else:
+                        return None
+                return closure_value(cands[0], b)
+            return None
+        rs = [r for r in cases(f, lambda pl: None, oracle) if r["end"] == "return"]
+        vals = {r["known"].get(0) for r in rs}
+        if len(vals) != 1 or None in vals:
+            raise AnchorError("has_unprintable_ascii: byte 0x%02x undecided (%s)" % (b, vals))
+        if vals.pop():
             out.add(b)
-    return cl, out
+    return closures[0], out
+
 
 
 class _Unit:
